@@ -284,6 +284,7 @@ class Ctx(object):
             vout = os.path.join(self.scratch, 'shard_%s_%d.json' % (module, k))
             ee = dict(env or {})
             ee.update({'SHARD': k, 'NSHARD': nshards, 'VOUT': vout})
+            kw.setdefault('java_opts', ['-XX:ParallelGCThreads=2', '-Xmx2g', '-XX:CICompilerCount=2'])
             r = self.tlc(module, cfg, env=ee, workers=1, count=False, **kw)
             if not os.path.exists(vout):
                 raise MachineryError('shard %d of %s wrote no output:\n%s'
